@@ -69,7 +69,7 @@ def operations() -> List[Tuple[Any, ...]]:
         ops.append(("extend",) + pair)
     for x in ITEMS:
         ops.append(("remove", x))
-    ops += [("pop",), ("pop", 0), ("pop", 1), ("clear",), ("copy",), ("copy.copy",), ("deepcopy",), ("pickle",)]
+    ops += [("pop",), ("pop", 0), ("pop", 1), ("clear",), ("copy",), ("copy.copy",), ("deepcopy",), ("pickle",), ("append-dup",)]
     # one-shot iterables and refused items
     ops += [("extend-nil", "ap", "a2"), ("extend-nil", "a_2", "a1"),
             ("extend-gen", "a1", "ap"), ("extend-gen", "keys", "a2"), ("append-bad",), ("insert-bad", 0), ("insert-bad", 1), ("extend-bad", "ap")]
@@ -189,10 +189,13 @@ def apply(st: State, op: Tuple[Any, ...]) -> None:
     exc_impl = exc_ref = None
     before = list(ref)
     by_identity = True
-    if kind in ("append", "insert", "extend", "remove", "pop", "clear"):  # noqa: C901
+    if kind in ("append", "insert", "extend", "remove", "pop", "clear", "append-dup"):  # noqa: C901
         try:
+            dup = ref[0] if ref else None  # (append-dup: the object at position 0 once more -- two positions, two names)
             if kind == "append":
                 ref.append(A[op[1]])
+            elif kind == "append-dup" and dup is not None:
+                ref.append(dup)
             elif kind == "insert":
                 ref.insert(op[1], A[op[2]])
             elif kind == "extend":
@@ -208,6 +211,8 @@ def apply(st: State, op: Tuple[Any, ...]) -> None:
         try:
             if kind == "append":
                 nil.append(A[op[1]])
+            elif kind == "append-dup" and dup is not None:
+                nil.append(dup)
             elif kind == "insert":
                 nil.insert(op[1], A[op[2]])
             elif kind == "extend":
@@ -302,11 +307,16 @@ def apply(st: State, op: Tuple[Any, ...]) -> None:
 
 
 def enabled(st: State) -> List[Tuple[Any, ...]]:
-    """An item OBJECT is never put into the list twice (the property's 'exactly one name' is meaningless for
-    that); equal-but-distinct objects and copies are."""
+    """An item object is put into the list at most twice (operation append-dup: then each of its two positions has a name of
+    its own); equal-but-distinct objects and copies are unrestricted."""
     present = {id(x) for x in st.nil}
     out = []
+    lst = list(st.nil)
     for op in OPS:
+        if op[0] == "append-dup":
+            # the very same object a second time (never a third): every POSITION has exactly one name, so it gets two names
+            if not lst or sum(1 for x in lst if x is lst[0]) > 1:
+                continue
         if op[0] in ("append", "insert", "extend", "extend-gen", "extend-bad", "extend-nil"):
             names = op[1:] if op[0] != "insert" else op[2:]
             if any(id(st.alpha[n]) in present for n in names):
